@@ -77,11 +77,12 @@ pub fn scopes() -> Vec<Scope> {
     m1.insert(s("quote1"), 1u8);
     m1.insert(s("conv1"), 1u8);
     let mut a1 = BTreeMap::new();
-    a1.insert(s("seller1"), Some(vec![s("kyc")]));
-    a1.insert(s("seller2"), Some(vec![s("kyc")]));
+    a1.insert(s("seller1"), Some(vec![s("kyc"), s("accred")]));
+    // seller2 holds one required attribute twice and lacks the other
+    a1.insert(s("seller2"), Some(vec![s("kyc"), s("kyc")]));
     a1.insert(s("mallory"), Some(vec![]));
     let mut i1 = base_inst(0, 1, None, Some(("0.333", "bidfee1")));
-    i1.ask_required_attributes = vec![s("kyc")];
+    i1.ask_required_attributes = vec![s("kyc"), s("accred")];
     v.push(Scope {
         name: "restricted",
         inst: i1,
@@ -628,6 +629,20 @@ pub fn mig_grid() -> Vec<History> {
     let k_hi = "9f000000-0000-4000-8000-000000000003";
     let k_legacy = "c13f8888ca434a64ab1b1ca8d60aa49b";
     type Shape = (Vec<(String, AskOrderV1)>, Vec<(String, BidOrderV3)>, Vec<(String, BidOrderV2)>);
+    let ready_ask = (
+        A2.to_string(),
+        AskOrderV1 {
+            id: A2.to_string(),
+            owner: Addr::unchecked("seller2"),
+            class: AskOrderClass::Convertible {
+                status: AskOrderStatus::Ready { approver: Addr::unchecked("approver1"), converted_base: coin(20, "base") },
+            },
+            base: "conv1".into(),
+            quote: "quote1".into(),
+            price: "2".into(),
+            size: Uint128::new(20),
+        },
+    );
     let shapes: Vec<Shape> = vec![
         (vec![], vec![], vec![]),
         (vec![ask.clone()], vec![], vec![]),
@@ -636,6 +651,8 @@ pub fn mig_grid() -> Vec<History> {
         (vec![], vec![v3(k_mid)], vec![v2plain(k_lo), v2(k_hi)]),
         (vec![ask.clone()], vec![v3(k_lo)], vec![v2refund(k_hi)]),
         (vec![], vec![], vec![v2(k_legacy)]),
+        // an approved convertible ask and a current-format bid it can be matched with
+        (vec![ask.clone(), ready_ask.clone()], vec![v3(k_mid)], vec![]),
     ];
     let none = MigrateMsg {
         approvers: None,
@@ -706,6 +723,13 @@ pub fn mig_grid() -> Vec<History> {
                     steps.push(Step::Probe { sender: "buyer1".into(), funds: vec![], msg: ExecuteMsg::CancelBid { id: k.clone() } });
                     steps.push(Step::Probe { sender: sc.exec.into(), funds: vec![], msg: ExecuteMsg::RejectBid { id: k.clone(), size: Some(Uint128::new(10)) } });
                     steps.push(Step::Query { msg: QueryMsg::GetBid { id: k.clone() } });
+                }
+                // matches that were possible before the migration are possible after it
+                for (ak, a) in &sh.0 {
+                    for (bk, _) in &sh.1 {
+                        steps.push(Step::Try { sender: sc.exec.into(), funds: vec![], msg: ExecuteMsg::ExecuteMatch { ask_id: ak.clone(), bid_id: bk.clone(), price: a.price.clone(), size: Uint128::new(10) } });
+                        steps.push(Step::Try { sender: sc.exec.into(), funds: vec![], msg: ExecuteMsg::ExecuteMatch { ask_id: ak.clone(), bid_id: bk.clone(), price: "3".into(), size: Uint128::new(10) } });
+                    }
                 }
                 steps.push(Step::Query { msg: QueryMsg::GetVersionInfo {} });
                 steps.push(Step::Query { msg: QueryMsg::GetContractInfo {} });
